@@ -640,6 +640,18 @@ def dedicated(ctx, emit_funcs, summaries):
             from .C01 import focusedseq_focus
             focusedseq_focus(ctx, rule)          # the interpreter side of the same selection
         if direction == "build":
+            # the object is visible to every member under the focused name before the first member is built (FocusedSeq._build pre-stores it:
+            # `"count" / Rebuild(..., len_(this.items))` ahead of `"items"` depends on it)
+            pre_ok, npre = True, 0
+            for em, r, ts, fps in _tmpl(summaries, q):
+                fn = [f for f in fps if f != "__template__"]
+                for p in fps.get(fn[0], []) if fn else []:
+                    if not p.returns:
+                        continue
+                    npre += 1
+                    lp = next((i for i, e in enumerate(p.events) if e.kind == "LOOP"), len(p.events))
+                    pre_ok = pre_ok and any(e.kind == "CTXSET" and e["value"] == OBJ and N.contains(e["key"], N.selfattr("parsebuildfrom")) for e in p.events[:lp])
+            ctx.ob(rule, fi, pre_ok and npre >= 1, "FocusedSeq build: generated code stores obj under parsebuildfrom in the nested context before the member loop, as the interpreter does", key="FocusedSeq build prestore")
             # which member gets the object: exactly the one whose name is parsebuildfrom (the interpreter's `obj if sc.name == parsebuildfrom else None`)
             focus_ok, decided = True, 0
             for em, r, ts, fps in _tmpl(summaries, q):
